@@ -36,7 +36,7 @@ pub fn run(ctx: &mut Ctx) {
     for (n, ok) in r9::selftest(false) {
         ctx.selftest(&n, ok);
     }
-    ctx.require(&["ha=q(N-1)+r", "ha_r=0", "ha_r=N-2", "ha_top_limb_ones", "ha_all_ff", "ha_random", "ha_64_bytes", "ha_small", "h1", "h2", "extract_sign", "extract_enc", "extract_exch", "extract_fails_when_t1=0", "extract_ok_next_to_failure", "annex_keys", "id_empty", "id_long", "h1_same_id_all_hids", "ha_r_limb_ladder", "t1_limb_ladder", "t1_carry_chain", "id_beyond_2^16_bits", "extract_id_beyond_2^16_bits", "t2_near_group_order", "t2_table_scalar", "h1_h2_length_sweep", "id_with_nul_bytes", "ha_r_low_limbs_all_ones", "master_key=N-1"]);
+    ctx.require(&["ha=q(N-1)+r", "ha_r=0", "ha_r=N-2", "ha_top_limb_ones", "ha_all_ff", "ha_random", "ha_64_bytes", "ha_small", "h1", "h2", "extract_sign", "extract_enc", "extract_exch", "extract_fails_when_t1=0", "extract_ok_next_to_failure", "annex_keys", "id_empty", "id_long", "h1_same_id_all_hids", "ha_r_limb_ladder", "t1_limb_ladder", "t1_carry_chain", "id_beyond_2^16_bits", "extract_id_beyond_2^16_bits", "t2_near_group_order", "t2_table_scalar", "h1_h2_length_sweep", "id_with_nul_bytes", "ha_r_low_limbs_all_ones", "master_key=N-1", "t1_boundary_value", "t1_sum_at_2^256"]);
     let pr = r9::params();
     let nm1 = &pr.n - 1u32;
     let two320: BigUint = BigUint::one() << 320;
@@ -172,7 +172,7 @@ pub fn run(ctx: &mut Ctx) {
         };
         let id = prng.bytes(idl);
         let hid = [1u8, 2, 3, 0, 0xff][(i % 5) as usize];
-        let wl = if i % 40 == 22 { [8185usize, 8192, 65536, 70001][((i / 40) % 4) as usize] } else { prng.range(0, 400) };
+        let wl = if i % 40 == 22 { [8185usize, 8192, 65536, 70001, (1 << 21) - 400, 1 << 21, (1 << 24) + 1][((i / 40) % 7) as usize] } else { prng.range(0, 400) };
         let w = prng.bytes(wl);
         if !ctx.mine(i) {
             continue;
@@ -275,7 +275,7 @@ pub fn run(ctx: &mut Ctx) {
     // --- identities containing NUL bytes, trailing blanks or newlines, non-UTF-8 bytes (hashed exactly as given)
     {
         let mut pl = ctx.prng("nul_ids");
-        for (k, id) in [b"Bob\0".to_vec(), b"\0Bob".to_vec(), b"Bo\0b".to_vec(), vec![0u8], vec![0u8; 4], b"Bob\0\0".to_vec(), b"Bob ".to_vec(), b" Bob".to_vec(), b"Bob\n".to_vec(), vec![0xffu8, 0xfe, 0x80]].iter().enumerate() {
+        for (k, id) in [b"Bob\0".to_vec(), b"\0Bob".to_vec(), b"Bo\0b".to_vec(), vec![0u8], vec![0u8; 4], b"Bob\0\0".to_vec(), b"Bob ".to_vec(), b" Bob".to_vec(), b"Bob\n".to_vec(), vec![0xffu8, 0xfe, 0x80], b"Alice\x01".to_vec(), b"Alice\x02".to_vec(), b"Alice\x03".to_vec(), vec![1u8], vec![3u8]].iter().enumerate() {
             let kk = scalar_for(&mut pl, 100);
             if !ctx.mine(k as u64) {
                 continue;
@@ -283,6 +283,53 @@ pub fn run(ctx: &mut Ctx) {
             for hid in [1u8, 2, 3] {
                 ctx.class("id_with_nul_bytes");
                 extract_case(ctx, &kk, id, hid, "id_with_nul_bytes");
+            }
+        }
+    }
+    // --- master keys solved so that t1 = H1 + ks is a boundary value (1, 2, N-1, N-2, N-3, (N+-1)/2), and so that the
+    // 256-bit sum H1 + ks before reduction is exactly 2^256 - 1, 2^256, 2^256 + 1
+    {
+        let mut pl = ctx.prng("t1_boundary");
+        let two256: BigUint = BigUint::one() << 256;
+        let t1s: Vec<BigUint> = vec![BigUint::one(), BigUint::from(2u32), &pr.n - 1u32, &pr.n - 2u32, &pr.n - 3u32, (&pr.n - 1u32) >> 1, (&pr.n + 1u32) >> 1];
+        let mut bi = 0u64;
+        for rep in 0..ctx.n(2, 20) {
+            for (ti, t1) in t1s.iter().enumerate() {
+                bi += 1;
+                let idl = pl.range(1, 12);
+                let id = pl.bytes(idl);
+                if !ctx.mine(bi) {
+                    continue;
+                }
+                let hid = [1u8, 3, 2][((ti as u64 + rep) % 3) as usize];
+                let k = (t1 + &pr.n - r9::h1(&id, hid)) % &pr.n;
+                if k.is_zero() {
+                    continue;
+                }
+                ctx.class("t1_boundary_value");
+                extract_case(ctx, &k, &id, hid, "t1_boundary_value");
+            }
+            for delta in 0..3u32 {
+                bi += 1;
+                // needs H1 > 2^256 - N + delta: search an identity (about one in 3.5)
+                let mut found = None;
+                for c in 0..200u32 {
+                    let id = format!("sum-at-2^256-{}-{}-{}", rep, delta, c).into_bytes();
+                    let hid = [1u8, 3, 2][(c % 3) as usize];
+                    let h = r9::h1(&id, hid);
+                    let target = &two256 - 1u32 + delta;
+                    if target > h && &target - &h < pr.n {
+                        found = Some((id, hid, &target - &h));
+                        break;
+                    }
+                }
+                if !ctx.mine(bi) {
+                    continue;
+                }
+                if let Some((id, hid, k)) = found {
+                    ctx.class("t1_sum_at_2^256");
+                    extract_case(ctx, &k, &id, hid, "t1_sum_at_2^256");
+                }
             }
         }
     }
